@@ -20,6 +20,30 @@
   A schedule is an arbitrary interleaving: a list of (client, operation).  Core Lean only.
 -/
 import PrologVerif.Basic
+namespace PrologVerif
+
+mutual
+  def Term.mapVars (μ : Nat → Nat) : Term → Term
+    | .var v => .var (μ v)
+    | .app f as => .app f (Args.mapVars μ as)
+    | t => t
+  def Args.mapVars (μ : Nat → Nat) : Args → Args
+    | .nil => .nil
+    | .cons t ts => .cons (Term.mapVars μ t) (Args.mapVars μ ts)
+end
+
+mutual
+  def Term.varsL : Term → List Nat
+    | .var v => [v]
+    | .app _ as => Args.varsL as
+    | _ => []
+  def Args.varsL : Args → List Nat
+    | .nil => []
+    | .cons t ts => Term.varsL t ++ Args.varsL ts
+end
+
+end PrologVerif
+
 namespace PrologVerif.Shared
 
 /-- `utf8.MaxRune + 1`: atoms below are one-rune atoms (the rune itself), table atoms start here -/
@@ -137,6 +161,10 @@ def renRes (ρ μ : Nat → Nat) : Res → Res
   | r => r
 
 def renEvent (ρ μ : Nat → Nat) (e : Event) : Event := ⟨e.client, renOp ρ e.op, renRes ρ μ e.res⟩
+
+/-- the operations of a history as a schedule of client `c` ALONE (atom arguments renamed by `ρ`) -/
+def soloSched (ρ : Nat → Nat) (c : Nat) (h : List Event) : Schedule :=
+  h.map fun e => (c, renOp ρ e.op)
 
 /-- A client only asks for the names of atoms it has *learned*: one-rune atoms, atoms that were in
     the table at the start (`< base + n0`), or results of its own earlier `newAtom` calls.
@@ -285,6 +313,12 @@ mutual
     | .cons _ _, .nil => .gt
     | .cons t ts, .cons u us => thenCmp (ITerm.cmp nm t u) (IArgs.cmp nm ts us)
 end
+
+/-- the naming of atoms a state defines (`Atom.String`; ids nobody was given print as "") -/
+def nameFn (σ : State) (a : Nat) : String :=
+  match atomName σ a with
+  | some s => s
+  | none => ""
 
 /-- an answer as the harness (and every other property's model) sees it: atoms by name,
     variables renamed by first occurrence -/
